@@ -5,5 +5,5 @@ CfgRN == [reentrant |-> <<TRUE, FALSE>>, deftimeout |-> <<-1, 100>>, poll |-> 50
 CfgRR == [reentrant |-> <<TRUE, TRUE>>, deftimeout |-> <<100, 0>>, poll |-> 50]
 CfgR1 == [reentrant |-> <<TRUE>>, deftimeout |-> <<-1>>, poll |-> 50]
 T2 == {"T1", "T2"}
-TM == {-2, -1, 0, 100}
+TM == {-2, -1, 0, 100, 400}
 =============================================================================
